@@ -231,14 +231,14 @@ class CallMixin(StmtMixin):
     def call_function(self, st: State, fi: FuncInfo, args: list, kwargs: dict, node: Any, ctx: Ctx) -> Res:
         # dynamic dispatch on the receiver's class where it is known
         c = self.find_contract(fi)
-        if c is not None and not c.inline and not (self.verifying_body_of == fi.key and self.call_depth == 0 and False):
+        if c is not None and not c.inline and not c.inline_at_calls:
             st, binds = self.bind_params(st, fi, args, kwargs, node)
             yield from self.apply_contract(st, c, binds, node, fi)
             return
         if fi.is_generator:
             yield from self.make_generator(st, fi, args, kwargs, node, ctx)
             return
-        allowed = (c is not None and c.inline) or fi.key in self.inline_ok or fi.key in self.reg.inline or self.inline_all
+        allowed = (c is not None and (c.inline or c.inline_at_calls)) or fi.key in self.inline_ok or fi.key in self.reg.inline or self.inline_all
         if not allowed:
             raise Unsupported(f"call to {fi.key}, which has no contract (and is not marked inline)", node)
         yield from self.inline_call(st, fi, args, kwargs, node)
@@ -323,6 +323,7 @@ class CallMixin(StmtMixin):
                     st_r2 = self.havoc_paths(st_r, c, binds)
                     env_r.st = st_r2
                     post = self.eval_clause_dict(c.on_raise, env_r)
+                    post = {k: v for k, v in post.items() if not any(k.endswith(suf) for suf in c.tag_suffix)}
                     st_r = env_r.st.assume(*post.values())
                 yield st_r, Raised(ExcVal(names_t[0]))
         st_n = st.assume(*[Not(cd) for cd in conds if cd is not False])
@@ -362,6 +363,9 @@ class CallMixin(StmtMixin):
             if c.ghost_exit is not None:
                 c.ghost_exit(env_a)
             post = self.eval_clause_dict(c.ensures, env_a)
+            # clauses carrying a tag suffix state a property over a region where it is *not* established for the
+            # callee (listed known findings); callers must not build on them
+            post = {k: v for k, v in post.items() if not any(k.endswith(suf) for suf in c.tag_suffix)}
             st_a = env_a.st.assume(*post.values())
             if len(alts) > 1:
                 if not self.feasible(st_a):
@@ -705,6 +709,14 @@ class CallMixin(StmtMixin):
                 return False
         raise Unsupported(f"isinstance({_kind(v)}, {_kind(c)})", node)
 
+    def builtin_issubclass(self, st: State, args: list, kwargs: dict, node: Any, ctx: Ctx) -> Res:
+        a, b = args
+        bs = list(b.items) if isinstance(b, Tup) else [b]
+        if isinstance(a, ClassVal) and all(isinstance(x, ClassVal) for x in bs):
+            yield st, any(a.info.is_subclass_of(x.info) for x in bs)
+            return
+        raise Unsupported("issubclass on non-class values", node)
+
     def builtin_type(self, st: State, args: list, kwargs: dict, node: Any, ctx: Ctx) -> Res:
         (v,) = args
         if isinstance(v, Ref):
@@ -760,6 +772,13 @@ class CallMixin(StmtMixin):
                 else:
                     yield from self.builtin_getattr(st1, [obj, name.val] + args[2:], kwargs, node, ctx)
             return
+        if isinstance(name, Ref) and st.obj(name).kind == "enumname":
+            # getattr(jelly.SomeEnum, SomeEnum.Name(v)) == v
+            en = st.obj(name)
+            if isinstance(obj, ExtVal) and obj.name == "jelly." + en.get("enum"):
+                yield st, en.get("value")
+                return
+            raise Unsupported("getattr with an enum name on a different object", node)
         if not isinstance(name, str):
             # symbolic attribute name: models may resolve it (e.g. message oneof member names)
             if isinstance(obj, Ref):
